@@ -70,14 +70,14 @@ def unit_props(unit):
     return props
 
 
-def run_unit(unit, defines=None, vacuity=False, rlimit=None, seed=None, tag='main', multiple_errors=20, only_fn=None, degrade=None, _depth=0):
+def run_unit(unit, defines=None, vacuity=False, rlimit=None, seed=None, tag='main', multiple_errors=20, only_fn=None, degrade=None, _depth=0, extra_items=None):
     """Assemble and verify one unit. Returns a result dict; never raises for proof failures."""
     os.makedirs(BUILD, exist_ok=True)
     t0 = time.time()
     res = dict(unit=unit, tag=tag, defines=defines or {}, vacuity=vacuity, status='ok', failures=[], tool_errors=[],
                fns={}, verified=0, errors=0, smt_ms=0, wall_s=0.0)
     try:
-        asm = Assembler(REPO, VERIF).assemble('units/%s.rs' % unit, defines=defines, vacuity=vacuity, degrade=degrade)
+        asm = Assembler(REPO, VERIF).assemble('units/%s.rs' % unit, defines=defines, vacuity=vacuity, degrade=degrade, extra_items=extra_items)
     except LostAnchor as e:
         res['status'] = 'lost-anchor'
         res['tool_errors'].append(str(e))
@@ -106,7 +106,12 @@ def run_unit(unit, defines=None, vacuity=False, rlimit=None, seed=None, tag='mai
     if rlimit:
         cmd += ['--rlimit', str(rlimit)]
     if only_fn:
-        cmd += ['--verify-function', only_fn, '--verify-root']
+        # developer aid: `fn=name` (root module) or `fn=some_m::name` (function inside the module some_m)
+        m_ = re.match(r'(\w+_m)::(.+)$', only_fn)
+        if m_:
+            cmd += ['--verify-function', m_.group(2), '--verify-only-module', m_.group(1)]
+        else:
+            cmd += ['--verify-function', only_fn, '--verify-root']
     if seed:
         cmd += ['-V', 'rand-seed=%d' % seed] if False else []
     res['cmd'] = ' '.join(cmd)
@@ -269,6 +274,16 @@ def run_unit(unit, defines=None, vacuity=False, rlimit=None, seed=None, tag='mai
     # function: degrade that function to contract-only and verify the rest of the unit (at most 3 rounds)
     if summary is None or (summary.get('verification-results', {}).get('encountered-vir-error')) or (not res['failures'] and res['tool_errors'] and not any(e.startswith('rlimit') for e in res['tool_errors'])):
         culprit = None
+        # a constant the repository added and an extracted function now names: import it verbatim and try again
+        for d in diags:
+            m_c = re.search(r'cannot find value `(\w+)` in this scope', d.get('message') or '') if d.get('level') == 'error' else None
+            if m_c and _depth < 3 and not any(x[2] == m_c.group(1) for x in (extra_items or [])):
+                for fsrc in sorted(glob.glob(os.path.join(REPO, 'src', '*.rs'))):
+                    if re.search(r'(?m)^\s*(pub(\([^)]*\))?\s+)?const\s+%s\s*:' % re.escape(m_c.group(1)), open(fsrc, encoding='utf-8').read()):
+                        r2 = run_unit(unit, defines=defines, vacuity=vacuity, rlimit=rlimit, seed=seed, tag=tag, multiple_errors=multiple_errors, only_fn=only_fn,
+                                      degrade=degrade, _depth=_depth + 1, extra_items=list(extra_items or []) + [(os.path.basename(fsrc), 'const', m_c.group(1))])
+                        r2.setdefault('auto_imported_consts', []).append(m_c.group(1))
+                        return r2
         for d in diags:
             if d.get('level') != 'error':
                 continue
@@ -282,7 +297,7 @@ def run_unit(unit, defines=None, vacuity=False, rlimit=None, seed=None, tag='mai
                 break
         if culprit and _depth < 3 and culprit not in (degrade or []):
             r2 = run_unit(unit, defines=defines, vacuity=vacuity, rlimit=rlimit, seed=seed, tag=tag, multiple_errors=multiple_errors, only_fn=only_fn,
-                          degrade=list(degrade or []) + [culprit], _depth=_depth + 1)
+                          degrade=list(degrade or []) + [culprit], _depth=_depth + 1, extra_items=extra_items)
             r2.setdefault('degraded_for_compile_errors', []).append(dict(fn=culprit, errors=res['tool_errors'][:3]))
             return r2
     if res['failures']:
